@@ -373,8 +373,19 @@ class FnDeps:
                 w = allargs
                 if summ is not None and not mp and ("@", idxs[0] + 1) in summ:
                     w = _subst0(summ[("@", idxs[0] + 1)])
-                for (tl, tp) in self.targets(st, ml, mp):
+                # the referent may itself hold `&mut` references (a writer wrapper around the caller's writer): what is
+                # written "through" it may land in those referents too
+                todo = list(self.targets(st, ml, mp))
+                seen_t = set()
+                while todo and len(seen_t) < 12:
+                    (tl, tp) = todo.pop()
+                    if (tl, tp) in seen_t:
+                        continue
+                    seen_t.add((tl, tp))
                     self._weak(st, tl, tp, w | ctrl)
+                    for nxt in self.targets(st, tl, tp):
+                        if nxt not in seen_t:
+                            todo.append(nxt)
         if dest is None:
             return
         if summ is None:
